@@ -4,6 +4,7 @@ import (
 	"fmt"
 	"go/constant"
 	"go/types"
+	"strconv"
 	"strings"
 
 	"golang.org/x/tools/go/ssa"
@@ -83,7 +84,8 @@ func (u *Unit) eval(env *Env, e *Expr) Val {
 	switch e.Op {
 	case "lit":
 		if strings.Contains(e.Name, ".") {
-			return &Scalar{T: Term{e.Name, SReal}, Typ: types.Typ[types.Float64]}
+			// decimal literals denote the float64 value Go would use
+			return &Scalar{T: realLit(constant.MakeFloat64(mustFloat(e.Name))), Typ: types.Typ[types.Float64]}
 		}
 		return &Scalar{T: BigLit(e.Name), Typ: types.Typ[types.Int]}
 	case "str":
@@ -153,6 +155,11 @@ func (u *Unit) eval(env *Env, e *Expr) Val {
 	}
 	u.note("cannot evaluate contract expression %s", e)
 	return &Scalar{T: TTrue, Typ: types.Typ[types.Bool]}
+}
+
+func mustFloat(s string) float64 {
+	f, _ := strconv.ParseFloat(s, 64)
+	return f
 }
 
 func scalarTyp(v Val) types.Type {
